@@ -1393,6 +1393,7 @@ class Wtp:
                     fn_name = self.parser_function_aliases[fn_name]
                 if fn_name == "#invoke":
                     if not expand_invoke:
+                        self.expand_stack.pop()  # fn_name
                         return "{{#invoke:" + "|".join(args) + "}}"
                     ret = invoke_fn(args, expander, parent)
                     # print(f"invoke: {ret=!r}")
